@@ -608,3 +608,76 @@ func judgePackedValue(mod, rr int64, got *bv, elem map[Sym]lfElemRef, cons []Con
 	}
 	return ""
 }
+
+// checkOnesPrimitive: complement.Ones as a value statement, by abstract interpretation with
+// modular arithmetic kept exact (engine E1, wrapExact): on every path of the function, for a
+// symbolic input byte b, the returned int8 is entailed to be b when b ≤ 127 and b − 255 when
+// b ≥ 128 (8-bit one's complement: −(~b & 0x7F) for a set sign bit, with 0xFF the negative
+// zero) — which of the two holds is decided by what the path knows about b.
+func checkOnesPrimitive(c *Ctx, r *Report) {
+	r.Rule("ones-is-ones-complement", "complement.Ones(b) returns b for b ≤ 127 and b − 255 for b ≥ 128 (8-bit one's complement, 0xFF = −0), on every path, for every b", 1)
+	f := c.Func("internal/pkg/complement", "Ones")
+	if f == nil {
+		for _, g := range c.LibFuncs() {
+			if g.Signature.Recv() == nil && g.Name() == "Ones" && normSig(g.Signature) == "func(uint8)(int8)" {
+				f = g
+			}
+		}
+	}
+	if f == nil || len(f.Params) != 1 {
+		r.Lost("complement.Ones")
+		return
+	}
+	r.Fn(c.FnName(f))
+	e := newLenflow(c, 4)
+	e.wrapExact = true
+	var b Lin
+	nPaths, bad := 0, ""
+	e.onReturn = func(st *lfState, rets []lfVal) {
+		nPaths++
+		if len(rets) != 1 {
+			bad = "unexpected result arity"
+			return
+		}
+		rv, ok := rets[0].(vInt)
+		if !ok {
+			bad = "the result is not an integer the engine follows"
+			return
+		}
+		eq := func(x, y Lin) bool { return entails(st.cons, geq(x, y)) && entails(st.cons, leq(x, y)) }
+		low := entails(st.cons, leq(b, linConst(127)))
+		high := entails(st.cons, geq(b, linConst(128)))
+		switch {
+		case low && eq(rv.E, b):
+		case high && eq(rv.E, b.addConst(-255)):
+		case !low && !high:
+			// the path does not know the sign: both cases must agree with it separately
+			c1 := append(append([]Cons{}, st.cons...), leq(b, linConst(127)))
+			c2 := append(append([]Cons{}, st.cons...), geq(b, linConst(128)))
+			ok1 := infeasibleWith(c1) || (entails(c1, geq(rv.E, b)) && entails(c1, leq(rv.E, b)))
+			ok2 := infeasibleWith(c2) || (entails(c2, geq(rv.E, b.addConst(-255))) && entails(c2, leq(rv.E, b.addConst(-255))))
+			if !ok1 || !ok2 {
+				bad = "on a path that does not test the sign bit the result is not the one's-complement value: returns " + e.linString(rv.E)
+			}
+		default:
+			side := "b ≤ 127: want b"
+			if high {
+				side = "b ≥ 128: want b − 255"
+			}
+			bad = "returns " + e.linString(rv.E) + " on the path with " + side
+		}
+	}
+	e.runEntry(f, func(fr *lfFrame, st *lfState) {
+		if bv, ok := fr.env[f.Params[0]].(vInt); ok {
+			b = bv.E
+		}
+	})
+	if e.budgetHit {
+		r.Unk("complement.Ones|value", f.Pos(), "budget exhausted")
+		return
+	}
+	if nPaths == 0 {
+		bad = "no returning path"
+	}
+	r.Check(bad == "", "complement.Ones|value", f.Pos(), fmt.Sprintf("b / b−255 entailed on %d paths", nPaths), "complement.Ones is not 8-bit one's complement: "+bad)
+}
